@@ -98,6 +98,9 @@ func readBlobString(i *bufio.Reader) (m RedisMessage, err error) {
 				m.setString(sb.String())
 				return m, nil
 			}
+			if length < 0 {
+				return RedisMessage{}, errors.New(unexpectedLength + strconv.FormatInt(length, 10))
+			}
 			sb.Grow(int(length))
 			if _, err = io.CopyN(&sb, i, length); err != nil {
 				return RedisMessage{}, err
@@ -138,6 +141,9 @@ func readArray(i *bufio.Reader) (m RedisMessage, err error) {
 		if length == -1 {
 			return m, errOldNull
 		}
+		if length < 0 {
+			return m, errors.New(unexpectedLength + strconv.FormatInt(length, 10))
+		}
 		m.array, m.intlen, err = readA(i, length)
 	} else if err == errChunked {
 		m.array, m.intlen, err = readE(i)
@@ -148,6 +154,9 @@ func readArray(i *bufio.Reader) (m RedisMessage, err error) {
 func readMap(i *bufio.Reader) (m RedisMessage, err error) {
 	length, err := readI(i)
 	if err == nil {
+		if length < 0 {
+			return m, errors.New(unexpectedLength + strconv.FormatInt(length, 10))
+		}
 		m.array, m.intlen, err = readA(i, length*2)
 	} else if err == errChunked {
 		m.array, m.intlen, err = readE(i)
@@ -210,6 +219,9 @@ func readB(i *bufio.Reader) (*byte, int64, error) {
 	}
 	if length == -1 {
 		return nil, 0, errOldNull
+	}
+	if length < 0 {
+		return nil, 0, errors.New(unexpectedLength + strconv.FormatInt(length, 10))
 	}
 	bs := make([]byte, length)
 	if _, err = io.ReadFull(i, bs); err != nil {
@@ -389,4 +401,5 @@ const (
 	unexpectedNoCRLF   = "received unexpected simple string message ending without CRLF"
 	unexpectedNumByte  = "received unexpected number byte: "
 	unknownMessageType = "received unknown message type: "
+	unexpectedLength   = "received unexpected negative length: "
 )
